@@ -32,6 +32,7 @@ type FuncContract struct {
 	PkgPath    string
 	Name       string // RelString within package, or full String() for foreign functions
 	Requires   []*Clause
+	Assumes    []*Clause // type-level facts about inputs that callers are not asked to establish (listed as assumptions)
 	Ensures    []*Clause
 	Invariants map[int][]*Clause
 	AtCalls    []*Clause
@@ -87,7 +88,7 @@ type Contracts struct {
 
 func fkey(pkg, name string) string { return pkg + "::" + name }
 
-var kwRe = regexp.MustCompile(`^(func|spec|lemma|axiom|uf|requires|ensures|invariant|loop|assigns|pure|inline|trusted|maypanic|nosafe|abstract|fresh|at|props|finding|noeffect)\b`)
+var kwRe = regexp.MustCompile(`^(func|spec|lemma|axiom|uf|requires|ensures|invariant|loop|assigns|pure|inline|trusted|maypanic|nosafe|abstract|fresh|at|props|finding|noeffect|assumes)\b`)
 
 // loadContractFile parses one file. pkgPath is the import path of the package it annotates.
 func (cs *Contracts) loadContractFile(path, pkgPath string) error {
@@ -165,7 +166,7 @@ func (cs *Contracts) loadContractFile(path, pkgPath string) error {
 			}
 			cs.Funcs[fkey(pkg, name)] = cur
 			curLemma = nil
-		case "requires", "ensures":
+		case "requires", "ensures", "assumes":
 			if cur == nil {
 				return fmt.Errorf("%s:%d: %s outside func", path, rc.line, kw)
 			}
@@ -175,6 +176,8 @@ func (cs *Contracts) loadContractFile(path, pkgPath string) error {
 			}
 			if kw == "requires" {
 				cur.Requires = append(cur.Requires, c)
+			} else if kw == "assumes" {
+				cur.Assumes = append(cur.Assumes, c)
 			} else {
 				cur.Ensures = append(cur.Ensures, c)
 			}
